@@ -7,7 +7,7 @@ From Shoot Require Import Base.Str Model.CtorDirective.
 Import ListNotations.
 
 (* strings are rendered as byte codes so that any control byte can be carried *)
-Definition sc (l : list nat) : string := string_of_list (map ascii_of_nat l).
+Definition sc (l : list N) : string := string_of_list (map ascii_of_N l).
 
 Inductive dcase :=
 | DNew (doc : string) (r : bool)
